@@ -28,7 +28,7 @@ check('C17', 'exploration',
 SIMNOTE = ('Oracle independent of the simulator (adjacency from link end-node names, own pattern clock, documented laws); '
            'runs that do not converge are inconclusive; held = no observed event contradicted the oracle on the executions '
            'listed in the evidence file, nothing is claimed about networks the generators cannot produce.')
-check('C01', 'exploration', 'offline checker over reported result tables: per-node flow balance + independent demand clock, on seeded random networks, perturbed example and test networks, and every simulation the repository's own tests make (pytest plugin wrapping run_sim)',
+check('C01', 'exploration', 'offline checker over reported result tables: per-node flow balance + independent demand clock, on seeded random networks, perturbed example and test networks, and every simulation the repository\'s own tests make (pytest plugin wrapping run_sim)',
       'Every junction/tank/reservoir x reported step of hundreds of seeded simulations (loops, parallel links, tanks, leaks, '
       'isolation schedules, DD/PDD, pattern_start) is checked for |in-out-demand-leak| <= solver tolerance and DD demand == '
       'base x pattern(t+pattern_start) x multiplier. The same oracle judges the hand-made test networks of the repository and, through a pytest '
